@@ -401,6 +401,15 @@ pub fn c04(ctx: &mut Ctx, t: &Term) {
     Ok(o) => o,
     Err(e) => return report_panic(ctx, t, "build", &e),
   };
+  c04_round(ctx, t, &cells, &obs);
+  if has_cached(t) {
+    // the same object again: every CachedSource now answers from what the first round stored
+    ctx.count("warm_rounds");
+    c04_round(ctx, t, &cells, &obs);
+  }
+}
+
+fn c04_round(ctx: &mut Ctx, t: &Term, cells: &[model::Cell], obs: &Obs) {
   let text: String = cells.iter().map(|c| c.ch).collect();
   let (pos, _) = model::positions(&text);
   let has_replace = t.any(&|x| matches!(x, Term::Replace(_, r) if !r.is_empty()));
@@ -929,16 +938,30 @@ pub fn c11(ctx: &mut Ctx, t: &Term) {
           ctx.transitions += s.events.len() as u64;
           let mut src_seen: Vec<u32> = Vec::new();
           let mut name_seen: Vec<u32> = Vec::new();
+          // an index names ONE table entry: announcing it again with another value makes every
+          // chunk that uses it ambiguous (repeating the same value is harmless)
+          let mut src_val: std::collections::BTreeMap<u32, &str> = Default::default();
+          let mut name_val: std::collections::BTreeMap<u32, &str> = Default::default();
           for e in &s.events {
             match e {
-              observe::Ev::Source { idx, .. } => {
+              observe::Ev::Source { idx, name, .. } => {
                 if !src_seen.contains(idx) {
                   src_seen.push(*idx);
                 }
+                if let Some(old) = src_val.insert(*idx, name.as_str()) {
+                  if old != name {
+                    ctx.violation("stream_index_announced_twice", format!("source columns={columns} final={fin}"), None, || case_json(t), t.size(), format!("source index {idx} announced as {old:?} and again as {name:?}"));
+                  }
+                }
               }
-              observe::Ev::Name { idx, .. } => {
+              observe::Ev::Name { idx, name } => {
                 if !name_seen.contains(idx) {
                   name_seen.push(*idx);
+                }
+                if let Some(old) = name_val.insert(*idx, name.as_str()) {
+                  if old != name {
+                    ctx.violation("stream_index_announced_twice", format!("name columns={columns} final={fin}"), None, || case_json(t), t.size(), format!("name index {idx} announced as {old:?} and again as {name:?}"));
+                  }
                 }
               }
               observe::Ev::Chunk { orig: Some((si, _, _, ni)), .. } => {
